@@ -175,9 +175,9 @@ class ContinuesEval:
             if k == "const":
                 dbg = str((o.const or {}).get("dbg", "") or (o.const or {}).get("str", "") or "")
                 if "promoted[" in dbg:
-                    idx = int(dbg.split("promoted[")[1].split("]")[0])
-                    for b in self.body.unit.bodies:
-                        if b.path == self.body.path and b.promoted == idx: from_stmts(b.stmts())
+                    from vlib.facts import promoted_body
+                    pb = promoted_body(self.body, dbg)
+                    if pb is not None: from_stmts(pb.stmts())
                 else: cands.append(None)
             elif k == "agg": from_stmts([o])
             else: cands.append(None)
